@@ -179,3 +179,27 @@ KEEP_SECOND = ("table-align", "table-cell", "breaks", "ref-image", "fence-info-s
 # slots whose second free character costs > 300 CPU-s (URL normalisation, entity table): one free character in quick
 QUICK_ONE_FREE = ("link-href", "link-href-angle", "image-src", "autolink", "entity", "entity-num", "ref-image", "refdef-title",
                   "link-title", "link-title-paren", "image-title", "image-alt", "strike-emph", "angle", "angle-close", "code-span", "text")
+
+
+def thorough_extra(seed):
+    jobs = []
+    spec_nocr = {n: dict(NOCR) for n in "abcdefgh"}
+    jobs.append({"harness": "escape", "params": {"k": 4}, "weight": 30})
+    from ..mdutil import urlish
+
+    for name, sc, inline, opts in SLOTS:
+        ex = dict(exclude="\r\0\n") if name.startswith("autolink") else NOCR
+        slot_spec = dict(spec_nocr, a=dict(ex, extra=urlish("a")), b=dict(ex, extra=urlish("b"))) if name in URL_SLOTS else spec_nocr
+        if name not in URL_SLOTS and name not in ("entity", "entity-num", "ref-image", "refdef-title"):
+            # two free characters in the slot (js-default)
+            _sharded(jobs, "render", {"cfg": JS, "scaffold": sc, "inline": inline, "sym_opts": opts, "name": name + "-2free"}, weight=12, spec=slot_spec)
+        # one free character under commonmark with html=False and with the typographer on
+        sc1 = [("x" if p == H("b") else p) for p in sc] if name in KEEP_SECOND else [p for p in sc if p != H("b")]
+        for cfg in (CMH, JST):
+            jobs.append({"harness": "render", "params": {"cfg": cfg, "scaffold": sc1, "inline": inline, "sym_opts": opts, "name": name + "-" + cfg["preset"],
+                                                          "spec": slot_spec}, "weight": 4})
+    _sharded(jobs, "render", {"cfg": CMH, "scaffold": free_doc(2, "\n"), "inline": False, "sym_opts": [], "name": "pipeline-cm"}, weight=7, spec=spec_nocr)
+    for j in jobs:
+        j["cpu_cap"] = 3000
+        j["wall_cap"] = 4000
+    return jobs
